@@ -36,9 +36,9 @@ func init() {
 			"third-party code (jsonld, fastjson, encoding/gob) is not instrumented; its internal synchronisation is trusted"},
 		Bound: func(tier string) string {
 			if tier == "thorough" {
-				return "all scenarios complete for <= 2 preemptions, the 2-thread scenarios S1-S3 for <= 3 (deadline permitting: the evidence reports exhaustive=false if not); sequential pass over level 1 (all shapes), saturated and depth 2"
+				return "all scenarios complete for <= 2 preemptions, the 2-thread scenarios S1-S3 for <= 3 (deadline permitting: the evidence reports exhaustive=false if not); sequential pass over level 1 (all shapes), saturated and depth 2; families added after round 5: DESIGN.md 8.11"
 			}
-			return "all 2-thread scenarios complete for <= 2 preemptions (S9, ~1 300 yield points per execution: <= 1), 3-thread scenarios for <= 1; sequential pass over level 0, level 1 (q shapes) and saturated"
+			return "all 2-thread scenarios complete for <= 2 preemptions (S9, ~1 300 yield points per execution: <= 1), 3-thread scenarios for <= 1; sequential pass over level 0, level 1 (q shapes) and saturated; families added after round 5: DESIGN.md 8.11"
 		},
 		Pre:  c12Pre,
 		Post: c12Race,
